@@ -445,6 +445,22 @@ func chain(k int) []Op {
 	return ops
 }
 
+// m01 -> d, m02 -> m01, ..., m41 -> m40 (relative links in the root) and d/l -> f:
+// getNode agrees with the reference on m40/l (both: too many links), openFile and
+// MkdirAll restart their limits per lookup and succeed where the reference says ELOOP.
+func budgetPerLookup() []Op {
+	ops := []Op{mkdir("d"), wfile("d/f", "x"), symlink("f", "d/l")}
+	for k := 1; k <= 41; k++ {
+		t := "d"
+		if k > 1 {
+			t = fmt.Sprintf("m%02d", k-1)
+		}
+		ops = append(ops, symlink(t, fmt.Sprintf("m%02d", k)))
+	}
+	return append(ops, p1("Stat", "m40/l"), p1("ReadFile", "m40/l"), p1("Stat", "m40/f"), p1("Stat", "m41"), mkdirall("m41/x"), p1("ReadDir", "d"),
+		p1("Stat", "m39/l"), p1("ReadFile", "m39/l"))
+}
+
 func corpus() []scenario {
 	rep := func(s string, n int) string { return strings.TrimSuffix(strings.Repeat(s+"/", n), "/") }
 	return []scenario{
@@ -483,6 +499,12 @@ func corpus() []scenario {
 		{"law/xattrs-mknod", false, []Op{wfile("f", "x"), Op{K: "SetXattr", P: "f", A: "user.b", B: []byte("2")}, Op{K: "SetXattr", P: "f", A: "user.a", B: []byte("1")}, p1("ListXattrs", "f"), Op{K: "SetXattr", P: "f", A: "user.b", B: []byte("3")}, Op{K: "GetXattr", P: "f", A: "user.b"}, Op{K: "RemoveXattr", P: "f", A: "user.a"}, Op{K: "RemoveXattr", P: "f", A: "user.zz"}, p1("ListXattrs", "f"), Op{K: "GetXattr", P: "f", A: "user.a"}, Op{K: "Mknod", P: "null", Perm: 0o666, Dev: 259}, p1("Readnod", "null"), p1("Stat", "null"), p1("Readnod", "f"), p1("Readnod", "nope"), Op{K: "Mknod", P: "null", Perm: 0o666, Dev: 261}, p1("ReadDir", ".")}},
 		{"law/read-write-patterns", true, []Op{p1("Create", "f"), write(0, "0123456789"), seek(0, 3, 0), write(0, "abc"), seek(0, 0, 0), read(0, 4), read(0, 4), read(0, 4), read(0, 4), readat(0, 3, 8), readat(0, 3, 10), readat(0, 0, 2), seek(0, -2, 2), write(0, "WXYZ"), p1("ReadFile", "f"), seek(0, 0, 9), closeh(0), closeh(0), read(0, 1), write(0, "x"), seek(0, 0, 0), read(0, 0)}},
 		{"law/symlinked-dirs", true, []Op{mkdirall("a/b/c"), symlink("a/b", "l"), wfile("l/c/f", "deep"), p1("ReadFile", "a/b/c/f"), symlink("c/f", "a/b/rel"), p1("ReadFile", "l/rel"), p1("ReadDir", "l"), mkdir("l/new"), p1("ReadDir", "a/b"), symlink("b/c", "a/m"), p1("ReadDir", "a/m"), mkdirall("a/m/x/y"), p1("ReadDir", "a/b/c")}},
+		// witnesses of Properties/C17.v added with the syntactic class (tame link targets)
+		{"tame/links-through-links", true, []Op{mkdirall("a/b"), symlink("a/b", "l"), wfile("l/f", "abc"), symlink("f", "a/b/r"), symlink("l", "m"), symlink("m/r", "k"),
+			p1("ReadFile", "k"), p1("ReadFile", "m/r"), open("m/new", fl(2, "creat")), mkdirall("m/x/y"), p1("Stat", "k"), p1("Lstat", "a/b/f"), link("k", "a/hl"), p1("Readlink", "k"),
+			mkdir("m/d"), p1("Remove", "m/r"), p1("ListXattrs", "k"), p1("ReadDir", "a/b"), p1("ReadFile", "k")}},
+		{"corner/budget-per-lookup", false, budgetPerLookup()},
+		{"corner/tarfs-mkdirall-dot", true, []Op{mkdirall("."), p1("ReadDir", "/"), mkdirall("/"), p1("ReadDir", "."), p1("Stat", ".")}},
 		{"chain/39", false, chain(39)},
 		{"chain/40", false, chain(40)},
 		{"chain/41", false, chain(41)},
